@@ -33,12 +33,84 @@ def block_contents(rnd, n, kind):
     raise ValueError(kind)
 
 
+# ---- an independent little GF(256)/RS toolkit, used only to CONSTRUCT awkward inputs (remainders with leading zeros)
+def _gf_tables():
+    exp = [0] * 512; log = [0] * 256
+    x = 1
+    for i in range(255):
+        exp[i] = x; log[x] = i
+        x <<= 1
+        if x & 0x100:
+            x ^= 0x11D
+    for i in range(255, 512):
+        exp[i] = exp[i - 255]
+    return exp, log
+
+
+_EXP, _LOG = _gf_tables()
+
+
+def _mul(a, b):
+    return 0 if a == 0 or b == 0 else _EXP[_LOG[a] + _LOG[b]]
+
+
+def _inv(a):
+    return _EXP[255 - _LOG[a]]
+
+
+def _gen(e):
+    g = [1]
+    for i in range(e):
+        g = [a ^ b for a, b in zip(g + [0], [0] + [_mul(c, _EXP[i]) for c in g])]
+    return g
+
+
+def _ec(data, e):
+    g = _gen(e)
+    rem = list(data) + [0] * e
+    for i in range(len(data)):
+        c = rem[i]
+        if c:
+            for j in range(1, len(g)):
+                rem[i + j] ^= _mul(g[j], c)
+    return rem[len(data):]
+
+
+def with_zero_led_remainder(rnd, n, e, k):
+    """n data bytes whose RS remainder (e check bytes) starts with k zero bytes: solve for the last k data bytes (linear over GF(256))"""
+    if n < k + 1:
+        return None
+    base = [rnd.randrange(256) for _ in range(n - k)] + [0] * k
+    r0 = _ec(base, e)[:k]
+    units = []
+    for j in range(k):
+        u = [0] * n; u[n - k + j] = 1
+        units.append(_ec(u, e)[:k])
+    # solve sum_j x_j * units[j][i] = r0[i]  (i < k)
+    A = [[units[j][i] for j in range(k)] + [r0[i]] for i in range(k)]
+    for col in range(k):
+        piv = next((r for r in range(col, k) if A[r][col]), None)
+        if piv is None:
+            return None
+        A[col], A[piv] = A[piv], A[col]
+        iv = _inv(A[col][col])
+        A[col] = [_mul(x, iv) for x in A[col]]
+        for r in range(k):
+            if r != col and A[r][col]:
+                f = A[r][col]
+                A[r] = [x ^ _mul(f, y) for x, y in zip(A[r], A[col])]
+    sol = [A[i][k] for i in range(k)]
+    out = base[:n - k] + sol
+    assert _ec(out, e)[:k] == [0] * k
+    return out
+
+
 def run(ctx):
     tier, seed, log = ctx["tier"], ctx["seed"], ctx["log"]
     rnd = random.Random(seed * 101 + 7)
     from qrcode import util, base
     R = Res("P2: gexp/glog on every argument, rs_blocks on all 160 pairs, Polynomial % on random/structured operands, "
-            "create_bytes on block contents {random, all-zero, zero prefix/suffix, single non-zero, 0xFF, exact multiples} for "
+            "create_bytes on block contents {random, all-zero, zero prefix/suffix, single non-zero, 0xFF, remainders constructed to start with 1-3 zero codewords} for "
             "(version, level) pairs; P3: Spec de-interleaving + syndromes of every block of create_bytes output and of "
             "codewords read back from compiled symbols. distinct = distinct canonical requests")
     reqs, exps = [], []
@@ -88,6 +160,22 @@ def run(ctx):
             if not e.startswith("ok"):
                 R.oracle(reqs[-1], False, dict(input=f"create_bytes v={v} level={l} data={buf[:60]}...", expected="error-correction codewords for every data content",
                                                observed=e, version=v, level=l, data=buf), tag="P3:create_bytes-error")
+    # blocks whose remainder starts with 1, 2, 3 zero codewords (each 2^-8k by chance): first block of several shapes
+    for (v, l) in [(1, 1), (1, 2), (3, 1), (2, 0), (5, 3), (10, 2)] + ([(20, 1), (40, 2)] if tier == "thorough" else []):
+        blocks = [(b.total_count, b.data_count) for b in base.rs_blocks(v, l)]
+        nd = sum(d for _, d in blocks)
+        t0, d0 = blocks[0]
+        for k in (1, 2, 3):
+            first = with_zero_led_remainder(rnd, d0, t0 - d0, k)
+            if first is None:
+                continue
+            buf = first + [rnd.randrange(256) for _ in range(nd - d0)]
+            def f():
+                out = util.create_bytes(FakeBuffer(buf), base.rs_blocks(v, l))
+                cb.append((v, l, buf, out))
+                return fmt_list(out)
+            reqs.append(f"createbytes {fmt_list(buf)} {fmt_blocks(blocks)}")
+            exps.append(run_impl(f))
     got = ask_parallel(reqs, chunk=500)
     for rq, e, g in zip(reqs, exps, got):
         R.corr(rq.split(" ")[0], rq, e, g, tag="P2:" + rq.split(" ")[0], sample=rq[:80])
